@@ -156,7 +156,58 @@ def machine_defaults(call):
     return canon(m2), []
 
 
-KINDS = dict(chain=chain, covering=covering, bitfield=bitfield, controller=controller, machine=machine_defaults)
+def boot_call(call):
+    """boot() against a recording socket and a frozen clock: digest of the datagrams sent."""
+    import hashlib
+    import rig.machine_control.boot as B
+    sent = []
+
+    class Sock(object):
+        def connect(self, a):
+            pass
+
+        def send(self, d):
+            sent.append(bytes(d))
+
+        def close(self):
+            pass
+
+    class SockMod(object):
+        AF_INET = SOCK_DGRAM = 0
+
+        @staticmethod
+        def socket(*a, **k):
+            return Sock()
+
+    class TimeMod(object):
+        @staticmethod
+        def time():
+            return 1000000
+
+        @staticmethod
+        def sleep(s):
+            pass
+    rs, rt = B.socket, B.time
+    B.socket, B.time = SockMod, TimeMod
+    opts = dict(call["options"])
+    if call.get("preset"):
+        opts.update(getattr(B, call["preset"]))
+    given = dict(call["overrides"]) if call.get("overrides") is not None else None
+    before = snap(given)
+    try:
+        if given is None:
+            B.boot("host", **opts)
+        else:
+            B.boot("host", sv_overrides=given, **opts)
+        res = [len(sent), hashlib.sha1(b"".join(sent)).hexdigest()]
+    except Exception as e:
+        res = ["raised", type(e).__name__]
+    finally:
+        B.socket, B.time = rs, rt
+    return res, (["boot.sv_overrides"] if snap(given) != before else [])
+
+
+KINDS = dict(boot=boot_call, chain=chain, covering=covering, bitfield=bitfield, controller=controller, machine=machine_defaults)
 
 if __name__ == "__main__":
     import implutil
